@@ -131,15 +131,20 @@ def make_clause(spec: Dict[str, Any]):
     raise ValueError(kind)
 
 
+SMALLEST_NORMAL = {2.0 ** -23: Fr(2) ** -126, 2.0 ** -52: Fr(2) ** -1022}
+
+
 def apply_clause_exact(spec: Dict[str, Any], value: Fr, err: Fr, path: Sequence[float], eps: float) -> Tuple[Fr, Fr]:
-    """Exact semantics of one clause on (value, accumulated float error bound)."""
+    """Exact semantics of one clause on (value, accumulated float error bound).  Every arithmetic clause also gets the
+    underflow allowance of its dtype (a result below the smallest normal number is flushed or loses precision)."""
     kind = spec["kind"]
     e = Fr(eps)
+    tiny = SMALLEST_NORMAL[eps]
     if kind == "affine":
         a, b = Fr(spec["a"]), Fr(spec["b"])
         v = a * value + b
         # scalar a, b are converted to the tensor dtype (one representation error each), two roundings
-        return v, abs(a) * err + 2 * e * (abs(a * value) + abs(b)) + e * abs(v)
+        return v, abs(a) * err + 2 * e * (abs(a * value) + abs(b)) + e * abs(v) + tiny
     if kind == "cap":
         c = Fr(spec["c"])
         return min(value, c), err + e * abs(c)
@@ -150,12 +155,15 @@ def apply_clause_exact(spec: Dict[str, Any], value: Fr, err: Fr, path: Sequence[
         peak = max(Fr(x) for x in path)
         return (value, err) if peak < Fr(spec["barrier"]) else (Fr(0), Fr(0))
     if kind == "square":
-        return value * value, 2 * abs(value) * err + err * err + e * value * value
+        return value * value, 2 * abs(value) * err + err * err + e * value * value + tiny
     raise ValueError(kind)
 
 
-def apply_clauses_exact(specs, value: Fr, path: Sequence[float], eps: float) -> Tuple[Fr, Fr]:
+def apply_clauses_exact(specs, value: Fr, path: Sequence[float], eps: float) -> Tuple[Fr, Fr, Fr]:
+    """-> (value, error bound, largest intermediate magnitude) of the clauses applied in list order."""
     err = Fr(0)
+    peak = abs(value)
     for s in specs:
         value, err = apply_clause_exact(s, value, err, path, eps)
-    return value, err
+        peak = max(peak, abs(value))
+    return value, err, peak
